@@ -54,7 +54,7 @@ def main():
         if rc != 0:
             print(f"SEED {sid}: patch does not apply on {head}: {out.strip()[:200]}")
             return 3
-        suite_rc, suite_out = sh([PY, "-m", "pytest", "-q", "-p", "no:cacheprovider", "--timeout=900"], cwd=wt)
+        suite_rc, suite_out = sh([PY, "-m", "pytest", "-q", "-p", "no:cacheprovider", "--timeout=180"], cwd=wt)
         suite_line = suite_out.strip().splitlines()[-1] if suite_out.strip() else ""
         demo, demo_out = sh([PY, str(src / "demo.py")], cwd=tmp, env=env, timeout=600)
     finally:
